@@ -133,6 +133,8 @@ func (famFuzz) Gen(r *rand.Rand, n int, _ map[string]string) []any {
 					"| line_format \"{{.a\"", "| line_format \"{{ nosuchfunc .a }}\"", "| label_format x=\"{{ index .a 5 }}\"", "| line_format \"{{ .a | div 1 0 }}\"",
 					"| pattern \"<a><b>\"", "| pattern \"\"", "| pattern \"<a> <a>\"", "| json x=\"a[\"", "| json x=\"a..b\"", "| json x=\"[99999999999999999999]\"",
 					"| logfmt x=\"\\\"\"", "| regexp \"(?P<a>x)(?P<a>y)\"", "| regexp \"(?P<1a>x)\"", "|= ip(\"999.1.1.1\")", "| addr = ip(\"1.2.3.4-\")", "| addr = ip(\"::/999\")",
+					// ranges and prefixes that look like ones and are none
+					"|= ip(\"10.0.0.0/33\")", "!= ip(\"10.1.2.9-10.1.2.1\")", "|= ip(\"1.2.3.4/\")", "|= ip(\"a-b\")", "| logfmt | addr = ip(\"10.0.0.0/33\")", "| logfmt | addr != ip(\"10.0.0.9-10.0.0.1\")", "|= ip(\"::1-10.0.0.1\")", "|= ip(\"/8\")", "|= ip(\"-\")",
 					"| unwrap v", "| drop", "| keep ,", "| distinct",
 					// regular expressions whose ends look like removable wildcards but are not
 					"|~ \".*?x\"", "!~ \"a\\\\.*\"", "|~ \".*\"", "|~ \".*.*\"", "|~ \"\\\\.*\"", "|~ \".*?\"", "|~ \"(.*)\"", "|~ \".*|x\"", "|~ \"x|.*\"", "!~ \".*+\"",
